@@ -30,22 +30,31 @@ META = {
 TRACE = 'trace=openat,write,close,renameat2,renameat,rename,link,unlink,unlinkat,truncate,ftruncate'
 LINE = re.compile(r'^(\d+)\s+(\w+)\((.*)\)\s+=\s+(-?\d+|\?)(.*)$')
 NAME = re.compile(r'^app\.(\d{4}-\d\d-\d\d)\.(\d+)\.log(\.gz)?$')
+_NAME_CACHE = {}
+
+
+def name_re(fname):
+    """recogniser of the rotated names of <base>.<suffix>: <base>.<date>.<index>.<suffix>[.gz]"""
+    if fname not in _NAME_CACHE:
+        base, _, suf = fname.rpartition('.')
+        _NAME_CACHE[fname] = re.compile(r'^%s\.(\d{4}-\d\d-\d\d)\.(\d+)\.%s(\.gz)?$' % (re.escape(base), re.escape(suf)))
+    return _NAME_CACHE[fname]
 ERRNOS = ('EACCES', 'ENOSPC', 'EIO')
 
 
 # ------------------------------------------------------------------------------------------ real side
-def strace_run(crash, logdir, L, N, opts, start, sizes, inject=(), trace_path=None):
+def strace_run(crash, logdir, L, N, opts, start, sizes, inject=(), trace_path=None, fname='app.log'):
     cmd = ['strace', '-f', '-s', '48', '-o', trace_path or '/dev/null', '-e', TRACE]
     for i in inject:
         cmd += ['-e', 'inject=' + i]
-    cmd += [crash, logdir, str(L), str(N), str(opts), str(start), ','.join(map(str, sizes))]
+    cmd += [crash, logdir, str(L), str(N), str(opts), str(start), ','.join(map(str, sizes)), fname]
     p = subprocess.run(cmd, stdout=subprocess.PIPE, stderr=subprocess.PIPE, timeout=120, env=dict(os.environ, LC_ALL='C.UTF-8'))
     done = [int(x.split()[1]) for x in p.stderr.decode('utf-8', 'replace').split('\n') if x.startswith('DONE')]
     return p.returncode, done
 
 
-def plain_run(crash, logdir, L, N, opts, start, sizes):
-    p = subprocess.run([crash, logdir, str(L), str(N), str(opts), str(start), ','.join(map(str, sizes))],
+def plain_run(crash, logdir, L, N, opts, start, sizes, fname='app.log', extra=()):
+    p = subprocess.run([crash, logdir, str(L), str(N), str(opts), str(start), ','.join(map(str, sizes)), fname] + list(extra),
                        stdout=subprocess.PIPE, stderr=subprocess.PIPE, timeout=120, env=dict(os.environ, LC_ALL='C.UTF-8'))
     return p.returncode
 
@@ -68,16 +77,16 @@ def parse_records(b):
     return recs, whole
 
 
-def read_dir(logdir):
+def read_dir(logdir, fname='app.log', ignore_foreign=False):
     """real directory -> {model name: (complete, [(id,size)])}, anomalies"""
     out, odd, dates = {}, [], set()
     for f in sorted(os.listdir(logdir)) if os.path.isdir(logdir) else []:
         b = open(os.path.join(logdir, f), 'rb').read()
-        if f == 'app.log':
+        if f == fname:
             recs, whole = parse_records(b)
             out['A'] = (whole, recs)
             continue
-        m = NAME.match(f)
+        m = name_re(fname).match(f)
         if not m:
             odd.append('foreign file ' + f); continue
         dates.add(m.group(1))
@@ -125,12 +134,13 @@ def same_dir(model, real):
     return True
 
 
-def project(trace_path, logdir):
+def project(trace_path, logdir, fname='app.log'):
     """strace output -> list of events {tok, sc, ordinal, ok, injected} in the model's step alphabet, plus the ids
     whose write to the active file succeeded"""
     fd, counts, ev, flushed = {}, {}, [], []
     cur_i, pending_link = None, None
     pre = logdir.rstrip('/') + '/'
+    NAME = name_re(fname)
     for line in open(trace_path, errors='replace'):
         m = LINE.match(line.rstrip('\n'))
         if not m:
@@ -150,7 +160,7 @@ def project(trace_path, logdir):
                 continue
             base = p[len(pre):]
             if 'O_CREAT' in args:
-                if base == 'app.log':
+                if base == fname:
                     e('Ot' if 'O_TRUNC' in args else 'Oa')
                     if ok: fd[int(ret)] = ('A',)
                 else:
@@ -192,7 +202,7 @@ def project(trace_path, logdir):
                 elif k[0] == 'G': e('K' + k[1])
                 else: e('COPYK' + k[1])
         elif sc in ('renameat2', 'renameat', 'rename', 'link'):
-            if len(paths) >= 2 and paths[0] == pre + 'app.log':
+            if len(paths) >= 2 and paths[0] == pre + fname:
                 mm = NAME.match(paths[1][len(pre):]) if paths[1].startswith(pre) else None
                 if mm and not mm.group(3):
                     e('R' + mm.group(2)); cur_i = mm.group(2)
@@ -216,7 +226,7 @@ def project(trace_path, logdir):
             if not p.startswith(pre):
                 continue
             base = p[len(pre):]
-            if base == 'app.log':
+            if base == fname:
                 if pending_link:
                     pending_link = None      # second half of the link+unlink shape of a rename
                 else:
@@ -271,7 +281,9 @@ class Model:
 def run_config(chk, crash, model, cfgv, stats, pool):
     L, N, opts, sizesA, sizesB = cfgv['L'], cfgv['N'], cfgv['opts'], cfgv['sizesA'], cfgv['sizesB']
     preseed = cfgv.get('preseed', [])
-    base = {'L': L, 'N': N, 'options': opts, 'phaseA_sizes': sizesA, 'phaseB_sizes': sizesB, 'preseed': preseed,
+    fname = cfgv.get('name', 'app.log')
+    fbase, _, fsuf = fname.rpartition('.')
+    base = {'L': L, 'N': N, 'options': opts, 'phaseA_sizes': sizesA, 'phaseB_sizes': sizesB, 'preseed': preseed, 'file_name': fname,
             'how': 'preseed = rotated files app.<today>.<index>.log[.gz] holding record r<id> put into the directory first (a directory left by '
                    'earlier runs); h_crash <dir> L N options 0 <phaseA sizes> (untraced), then h_crash <dir> L N options <first id> <phaseB sizes> under strace'}
     top = tempfile.mkdtemp(prefix='c10_', dir='/tmp')
@@ -281,13 +293,13 @@ def run_config(chk, crash, model, cfgv, stats, pool):
         today = time.strftime('%Y-%m-%d')
         for idx, gz, rid in preseed:
             data = b'r%05d\n' % rid
-            with open(os.path.join(tmpl, 'app.%s.%d.log%s' % (today, idx, '.gz' if gz else '')), 'wb') as f:
+            with open(os.path.join(tmpl, '%s.%s.%d.%s%s' % (fbase, today, idx, fsuf, '.gz' if gz else '')), 'wb') as f:
                 f.write(pygzip.compress(data) if gz else data)
-        d_pre, _ = read_dir(tmpl)
+        d_pre, _ = read_dir(tmpl, fname)
         if sizesA:
-            if plain_run(crash, tmpl, L, N, opts, 0, sizesA) != 0:
+            if plain_run(crash, tmpl, L, N, opts, 0, sizesA, fname) != 0:
                 chk.broke('phase A run failed', dict(base, kind='harness')); return
-        d_tmpl, odd = read_dir(tmpl)
+        d_tmpl, odd = read_dir(tmpl, fname)
         recsA = [(i, s) for i, s in enumerate(sizesA)]
         recsB = [(len(sizesA) + i, s) for i, s in enumerate(sizesB)]
         startB = len(sizesA)
@@ -301,12 +313,12 @@ def run_config(chk, crash, model, cfgv, stats, pool):
             return
         # (a) trace validation: dry run of phase B
         dry = os.path.join(top, 'dry'); shutil.copytree(tmpl, dry)
-        rc, done = strace_run(crash, dry, L, N, opts, startB, sizesB, trace_path=os.path.join(top, 'dry.tr'))
-        ev, flushed = project(os.path.join(top, 'dry.tr'), dry)
+        rc, done = strace_run(crash, dry, L, N, opts, startB, sizesB, trace_path=os.path.join(top, 'dry.tr'), fname=fname)
+        ev, flushed = project(os.path.join(top, 'dry.tr'), dry, fname)
         real_toks = [x['tok'] for x in ev]
         model_toks = [t[:-1] for t in handle_closed_filter([t.split(':', 1)[1] for t in toksB])]
         stats['trace_steps'] += len(real_toks)
-        d_final, odd2 = read_dir(dry)
+        d_final, odd2 = read_dir(dry, fname)
         if 'midnight' in odd + odd2:
             stats['skipped_midnight'] += 1; return
         aligned = rc == 0 and real_toks == model_toks
@@ -326,12 +338,12 @@ def run_config(chk, crash, model, cfgv, stats, pool):
             x = ev[k]
             d = os.path.join(top, 'k%d' % k); shutil.copytree(tmpl, d)
             tr = os.path.join(top, 'k%d.tr' % k)
-            rc, done = strace_run(crash, d, L, N, opts, startB, sizesB, inject=['%s:signal=SIGKILL:when=%d' % (x['sc'], x['ordinal'])], trace_path=tr)
-            evk, fl = project(tr, d)
-            dk, _ = read_dir(d)
+            rc, done = strace_run(crash, d, L, N, opts, startB, sizesB, inject=['%s:signal=SIGKILL:when=%d' % (x['sc'], x['ordinal'])], trace_path=tr, fname=fname)
+            evk, fl = project(tr, d, fname)
+            dk, _ = read_dir(d, fname)
             # a new sink on what the crash left: two more writes
-            rc2 = plain_run(crash, d, L, N, opts, 100, [7, 7])
-            dr, _ = read_dir(d)
+            rc2 = plain_run(crash, d, L, N, opts, 100, [7, 7], fname)
+            dr, _ = read_dir(d, fname)
             shutil.rmtree(d, ignore_errors=True)
             return {'k': k, 'rc': rc, 'toks': [y['tok'] for y in evk], 'flushed': fl, 'dir': dk, 'rc2': rc2, 'after': dr}
         results = list(pool.map(crash_point, range(len(ev))))
@@ -403,9 +415,9 @@ def run_config(chk, crash, model, cfgv, stats, pool):
             d = os.path.join(top, 'f%d%s' % (k, en)); shutil.copytree(tmpl, d)
             tr = os.path.join(top, 'f%d%s.tr' % (k, en))
             inj = ['%s:error=%s:when=%d' % (x['sc'], en, x['ordinal'])]
-            rc, done = strace_run(crash, d, L, N, opts, startB, sizesB, inject=inj, trace_path=tr)
-            evf, fl = project(tr, d)
-            res = [{'variant': 'syscall', 'rc': rc, 'toks': [(y['tok'], y['ok']) for y in evf], 'flushed': fl, 'dir': read_dir(d)[0]}]
+            rc, done = strace_run(crash, d, L, N, opts, startB, sizesB, inject=inj, trace_path=tr, fname=fname)
+            evf, fl = project(tr, d, fname)
+            res = [{'variant': 'syscall', 'rc': rc, 'toks': [(y['tok'], y['ok']) for y in evf], 'flushed': fl, 'dir': read_dir(d, fname)[0]}]
             shutil.rmtree(d, ignore_errors=True)
             if x['tok'][0] == 'R':
                 # QFile::rename falls back to a block copy; make that fail as well so that QFile::rename itself fails
@@ -413,9 +425,9 @@ def run_config(chk, crash, model, cfgv, stats, pool):
                 if cp:
                     shutil.copytree(tmpl, d)
                     inj2 = inj + ['openat:error=%s:when=%d' % (en, cp[0]['ordinal'])]
-                    rc, done = strace_run(crash, d, L, N, opts, startB, sizesB, inject=inj2, trace_path=tr)
-                    evf, fl = project(tr, d)
-                    res.append({'variant': 'qfile-rename', 'rc': rc, 'toks': [(y['tok'], y['ok']) for y in evf], 'flushed': fl, 'dir': read_dir(d)[0]})
+                    rc, done = strace_run(crash, d, L, N, opts, startB, sizesB, inject=inj2, trace_path=tr, fname=fname)
+                    evf, fl = project(tr, d, fname)
+                    res.append({'variant': 'qfile-rename', 'rc': rc, 'toks': [(y['tok'], y['ok']) for y in evf], 'flushed': fl, 'dir': read_dir(d, fname)[0]})
                     shutil.rmtree(d, ignore_errors=True)
             return k, en, res
         fres = list(pool.map(failure, jobs))
@@ -479,6 +491,48 @@ def run_config(chk, crash, model, cfgv, stats, pool):
         shutil.rmtree(top, ignore_errors=True)
 
 
+def two_sink_leg(chk, crash, model, stats):
+    """two sinks in ONE process and directory, same base name, different suffix and count limit: each sink's
+    rotation and retention must act on its own files only (directory per sink = model, oracle on its records)"""
+    thorough = chk.tier == 'thorough'
+    variants = [(8, 10, 2, 0, 14), (8, 10, 2, 4, 14)] + ([(20, 0, 2, 5, 20), (8, 3, 2, 0, 16), (8, 2, 10, 4, 16)] if thorough else [])
+    for L, N1, N2, opts, n in variants:
+        top = tempfile.mkdtemp(prefix='c10t_', dir='/tmp')
+        try:
+            d = os.path.join(top, 'log')
+            names = ('service.log', 'service.err')
+            rep = {'kind': 'two-sinks', 'L': None, 'max_size': L, 'N1': N1, 'N2': N2, 'options': opts, 'records': n, 'names': names,
+                   'how': 'h_crash <dir> %d %d %d 0 %s service.log service.err %d  (records alternate between the two sinks)' % (L, N1, opts, ','.join(['7'] * n), N2)}
+            rc = plain_run(crash, d, L, N1, opts, 0, [7] * n, names[0], extra=[names[1], str(N2)])
+            stats['two_sink_runs'] = stats.get('two_sink_runs', 0) + 1
+            if rc != 0:
+                chk.fail('two sinks in one directory: the process failed', rep, kind='two-sinks'); continue
+            lines, metas = [], []
+            for k, (fname, N) in enumerate(zip(names, (N1, N2))):
+                recs = [(i, 7) for i in range(n) if i % 2 == k]
+                real, _ = read_dir(d, fname)
+                lines.append(Model.h_line(L, N, opts, None, '', recs)); metas.append((fname, N, recs, real))
+            out = model.ask(lines)
+            plines = []
+            for fname, N, recs, real in metas:
+                toks, states, out = Model.split_h(out)
+                mdir, mgone = states[-1]
+                if not same_dir(parse_model_dir(mdir), real):
+                    chk.broke('two sinks in one directory: files of %s are %s, a sink alone (model) leaves %s' % (fname, show_dir(real), mdir),
+                              dict(rep, kind='correspondence', sink=fname))
+                plines.append('PP9001=c:%s | %s | %s' % (','.join('%d.%d' % r for r in recs), mgone, show_dir(real)))
+            for v, (fname, N, recs, real) in zip(model.ask(plines), metas):
+                stats['oracle_evaluations'] += 1
+                if v.strip() != '1':
+                    stats['oracle_falsified'] += 1
+                    chk.fail('two sinks in one process and directory (%s with N=%d, %s with N=%d): records written to %s are gone beyond its own '
+                             'retention: its files are %s' % (names[0], N1, names[1], N2, fname, show_dir(real)),
+                             dict(rep, sink=fname, directory=sorted(os.listdir(d))), kind='two-sinks')
+                    break
+        finally:
+            shutil.rmtree(top, ignore_errors=True)
+
+
 def configs(chk):
     thorough = chk.tier == 'thorough'
     rng = chk.rng
@@ -490,6 +544,13 @@ def configs(chk):
     # index 10, where name order and rotation order part ("...10..." < "...8..."); retention may only take the oldest
     out.append({'L': 8, 'N': 3, 'opts': 0, 'sizesA': [], 'sizesB': [7] * 5, 'preseed': [[8, False, 9008], [9, False, 9009]]})
     out.append({'L': 8, 'N': 4, 'opts': 4, 'sizesA': [], 'sizesB': [7] * 5, 'preseed': [[8, False, 9008], [9, True, 9009]]})
+    # base names with characters that are special in globs and regular expressions
+    out.append({'L': 8, 'N': 0, 'opts': 4, 'sizesA': [7, 7], 'sizesB': [7] * 4, 'name': 'worker[1].log'})
+    out.append({'L': 8, 'N': 3, 'opts': 0, 'sizesA': [7, 7], 'sizesB': [7] * 4, 'name': 'w?x+y.log'})
+    if thorough:
+        out.append({'L': 20, 'N': 2, 'opts': 5, 'sizesA': [7, 7, 7], 'sizesB': [7] * 6, 'name': 'a*b(c).d.log'})
+        out.append({'L': 8, 'N': 0, 'opts': 0, 'sizesA': [7, 7], 'sizesB': [7] * 4, 'name': 'worker[1].log'})
+        out.append({'L': 8, 'N': 4, 'opts': 4, 'sizesA': [7], 'sizesB': [7] * 5, 'name': '[x]?.{1}.log'})
     # N <= 0 means "keep everything": nothing may ever be deleted, whatever the sign
     out.append({'L': 8, 'N': -1, 'opts': 0, 'sizesA': [], 'sizesB': [7] * 5})
     out.append({'L': 20, 'N': -5, 'opts': 4, 'sizesA': [], 'sizesB': [7] * 7})
@@ -533,12 +594,13 @@ def run():
             if len(chk.failing) + len(chk.broken) > 12:
                 break
             run_config(chk, crash, model, c, stats, pool)
-    chk.cov.update({'evaluations': stats['crash_points'] + stats['failures'] + stats['restarts'],
+    two_sink_leg(chk, crash, model, stats)
+    chk.cov.update({'evaluations': stats['crash_points'] + stats['failures'] + stats['restarts'] + stats.get('two_sink_runs', 0),
                     'distinct_nontrivial': stats['crash_points'] + stats['failures'],
                     'rule': 'one evaluation = one real process killed before a mutation call (directory vs model crash state + extracted oracle), '
                             'one restart on that directory, or one injected errno failure; every (configuration, k) / (configuration, step, errno) is distinct',
                     'configurations': stats['configs'], 'trace_steps_validated': stats['trace_steps'], 'crash_points': stats['crash_points'],
-                    'restarts': stats['restarts'], 'single_failures': stats['failures'], 'oracle_evaluations': stats['oracle_evaluations'],
+                    'restarts': stats['restarts'], 'two_sink_runs': stats.get('two_sink_runs', 0), 'file_names': sorted({c.get('name', 'app.log') for c in cfgs}), 'single_failures': stats['failures'], 'oracle_evaluations': stats['oracle_evaluations'],
                     'oracle_falsified': stats['oracle_falsified'], 'crash_dir_mismatch': stats['crash_dir_mismatch'],
                     'restart_dir_mismatch': stats['restart_dir_mismatch'], 'skipped_midnight': stats['skipped_midnight'],
                     'step_kinds_in_traces': stats['step_kinds'], 'failure_kinds': stats['failure_kinds'],
@@ -559,7 +621,7 @@ def replay(path):
     stats = {'configs': 0, 'trace_steps': 0, 'crash_points': 0, 'restarts': 0, 'failures': 0, 'oracle_evaluations': 0, 'oracle_falsified': 0,
              'crash_dir_mismatch': 0, 'restart_dir_mismatch': 0, 'skipped_midnight': 0, 'step_kinds': {}, 'failure_kinds': {}, 'samples': [], 'reported': set()}
     with ThreadPoolExecutor(max_workers=16) as pool:
-        run_config(chk, crash, model, {'L': r['L'], 'N': r['N'], 'opts': r['options'], 'sizesA': r['phaseA_sizes'], 'sizesB': r['phaseB_sizes'], 'preseed': r.get('preseed', []), 'idx': 0}, stats, pool)
+        run_config(chk, crash, model, {'L': r['L'], 'N': r['N'], 'opts': r['options'], 'sizesA': r['phaseA_sizes'], 'sizesB': r['phaseB_sizes'], 'preseed': r.get('preseed', []), 'name': r.get('file_name', 'app.log'), 'idx': 0}, stats, pool)
     print('recorded       ', {k: r[k] for k in r if k not in ('how',)})
     for what, obj in chk.failing:
         print('implementation ', what)
